@@ -788,3 +788,178 @@ Proof.
   - unfold m, tt_merge, tt_merge_with, tt_negate. cbn [tt_precise]. apply add_negate_zero.
   - exact Wm.
 Qed.
+
+(* ------------------------------------------------------------------------------------------ *)
+(* (e) the shipped variants                                                                    *)
+(* ------------------------------------------------------------------------------------------ *)
+Import Byte.
+(* one category "VAT" with one group: 21% + 5% surcharge on 100.00 *)
+Definition ex_code : bytes := [x56; x41; x54].
+Definition ex_rt : rate_total :=
+  mkRT [] [] [] (Some (mkA 21 2)) (Some (mkA 5 2)) (mkA 10000 2) (mkA 2100 2) (mkA 500 2).
+Definition ex_tt : tax_total :=
+  mkTT [mkCT ex_code false [ex_rt] (mkA 2100 2) (Some (mkA 500 2)) (mkA 2100 2)]
+       (mkA 2600 2) (mkA 2600 2).
+(* the same category with a group without surcharge: 10% on 50.00 *)
+Definition ex_rt2 : rate_total :=
+  mkRT [] [] [] (Some (mkA 10 2)) None (mkA 5000 2) (mkA 500 2) (mkA 0 2).
+Definition ex_tt2 : tax_total :=
+  mkTT [mkCT ex_code false [ex_rt2] (mkA 500 2) None (mkA 500 2)] (mkA 500 2) (mkA 500 2).
+
+Ltac wf_concrete :=
+  unfold wf_tt, wf_ct, wf_rt, distinct_codes, distinct_groups; vm_compute;
+  repeat match goal with
+         | |- _ /\ _ => split
+         | |- Forall _ _ => constructor
+         | |- True => exact I
+         | |- _ = _ => reflexivity
+         | |- _ -> _ => let H := fresh in intros H; try discriminate H; try (injection H as <-)
+         | |- forall _, _ => intro
+         end.
+
+Lemma ex_tt_wf : wf_tt 2 ex_tt. Proof. wf_concrete. Qed.
+Lemma ex_tt2_wf : wf_tt 2 ex_tt2. Proof. wf_concrete. Qed.
+
+Lemma negate_flips_everything_shipped_refuted :
+  exists c t code key, wf_tt c t /\
+    group_suramount (tt_negate_shipped t) code key <> - group_suramount t code key /\
+    cat_surcharge (tt_negate_shipped t) code <> option_map Z.opp (cat_surcharge t code).
+Proof.
+  exists 2%nat, ex_tt, ex_code, ex_rt. split; [exact ex_tt_wf|].
+  split; vm_compute; discriminate.
+Qed.
+
+Lemma merge_comm_shipped_refuted :
+  exists c t1 t2 code, wf_tt c t1 /\ wf_tt c t2 /\
+    cat_surcharge (tt_merge_shipped t1 t2) code <> cat_surcharge (tt_merge_shipped t2 t1) code.
+Proof.
+  exists 2%nat, ex_tt, ex_tt2, ex_code. split; [exact ex_tt_wf|]. split; [exact ex_tt2_wf|].
+  vm_compute. discriminate.
+Qed.
+
+Lemma merge_negate_zero_shipped_refuted :
+  exists c t code key, wf_tt c t /\
+    group_suramount (tt_merge_shipped t (tt_negate_shipped t)) code key <> 0 /\
+    cat_surcharge (tt_merge_shipped t (tt_negate_shipped t)) code <> Some 0.
+Proof.
+  exists 2%nat, ex_tt, ex_code, ex_rt. split; [exact ex_tt_wf|].
+  split; vm_compute; discriminate.
+Qed.
+
+(* ex_tt is a correctly calculated summary (a fixed point of the repaired Calculate); the shipped
+   Calculate adds the category surcharge again at every recalculation: 5.00, 10.00, 15.00 *)
+Lemma recalculation_accumulates_surcharge_shipped_refuted :
+  exists cr c t code, wf_tt c t /\ tt_calculate cr c t = t /\
+    cat_surcharge (tt_calculate_shipped cr c t) code <> cat_surcharge t code /\
+    cat_surcharge (tt_calculate_shipped cr c (tt_calculate_shipped cr c t)) code
+      <> cat_surcharge (tt_calculate_shipped cr c t) code.
+Proof.
+  exists true, 2%nat, ex_tt, ex_code. split; [exact ex_tt_wf|].
+  split; [reflexivity|]. split; vm_compute; discriminate.
+Qed.
+
+(* ---- the repaired Calculate is idempotent on summaries whose bases have c decimals ---- *)
+Definition bases_at (c : nat) (t : tax_total) : Prop :=
+  Forall (fun ct => Forall (fun r => exp (rt_base r) = c) (ct_rates ct)) (tt_cats t).
+
+Lemma tt_calculate_unfold cr c t :
+  tt_calculate cr c t =
+  let cats0 := map (ct_calc cr c) (tt_cats t) in
+  let s := fold_left (sum_step cr) cats0 (zero_of c) in
+  mkTT (map (ct_round c) cats0) (rescale s c) s.
+Proof. reflexivity. Qed.
+
+Lemma rescale_idem a c : rescale (rescale a c) c = rescale a c.
+Proof. apply rescale_same, rescale_exp. Qed.
+
+(* recalculating a rounded group whose base has c decimals: only the (unused) surcharge amount of a
+   group without surcharge rate may differ, and only before rounding *)
+Lemma rt_recalc c r : exp (rt_base r) = c ->
+  let x := rt_calc c r in
+  let y := rt_calc c (rt_round c x) in
+  rt_round c y = rt_round c x /\ forall cr st, ct_step cr c st y = ct_step cr c st x.
+Proof.
+  intros E. unfold rt_calc, rt_round. destruct (rt_pct r) as [p|] eqn:Ep;
+    cbn [rt_key rt_country rt_ext rt_pct rt_sur rt_base rt_amount rt_suramount]; rewrite ?Ep;
+    cbn [rt_key rt_country rt_ext rt_pct rt_sur rt_base rt_amount rt_suramount].
+  - assert (Eb : rescale (rt_base r) c = rt_base r) by (apply rescale_same, E).
+    assert (Ea : rescale (pct_of p (rt_base r)) c = pct_of p (rt_base r)).
+    { apply rescale_same. unfold pct_of. rewrite mul_exp. exact E. }
+    rewrite !Eb, !Ea. destruct (rt_sur r) as [s|] eqn:Es.
+    + assert (Ec : rescale (pct_of s (rt_base r)) c = pct_of s (rt_base r)).
+      { apply rescale_same. unfold pct_of. rewrite mul_exp. exact E. }
+      rewrite !Ec. split; reflexivity.
+    + rewrite rescale_idem. split; [reflexivity|].
+      intros cr st. unfold ct_step. cbn [rt_pct rt_sur rt_amount]. reflexivity.
+  - rewrite !rescale_idem. split; [reflexivity|].
+    intros cr st. unfold ct_step. cbn [rt_pct]. reflexivity.
+Qed.
+
+Lemma fold_ct_step_ext cr c (g h : rate_total -> rate_total) l :
+  Forall (fun r => forall st, ct_step cr c st (g r) = ct_step cr c st (h r)) l ->
+  forall st, fold_left (ct_step cr c) (map g l) st = fold_left (ct_step cr c) (map h l) st.
+Proof.
+  intros F. induction F as [|r l Hr F IH]; intros st; cbn [map fold_left]; [reflexivity|].
+  rewrite Hr. apply IH.
+Qed.
+
+Lemma map_ext_Forall' {A B} (g h : A -> B) l : Forall (fun x => g x = h x) l -> map g l = map h l.
+Proof. intros F. induction F as [|x l Hx F IH]; cbn [map]; [reflexivity|]. rewrite Hx, IH. reflexivity. Qed.
+
+Lemma ct_recalc cr c ct : Forall (fun r => exp (rt_base r) = c) (ct_rates ct) ->
+  let x := ct_calc cr c ct in
+  let y := ct_calc cr c (ct_round c x) in
+  ct_round c y = ct_round c x /\ forall s, sum_step cr s y = sum_step cr s x.
+Proof.
+  intros F. unfold ct_calc, ct_round.
+  cbn [ct_code ct_retained ct_rates ct_amount ct_surcharge ct_precise].
+  rewrite !map_map.
+  assert (E1 : map (fun r => rt_round c (rt_calc c (rt_round c (rt_calc c r)))) (ct_rates ct) =
+               map (fun r => rt_round c (rt_calc c r)) (ct_rates ct)).
+  { apply map_ext_Forall'. eapply Forall_impl; [|exact F]. intros r Er. apply (rt_recalc c r Er). }
+  assert (E2 : forall st,
+             fold_left (ct_step cr c) (map (fun r => rt_calc c (rt_round c (rt_calc c r))) (ct_rates ct)) st =
+             fold_left (ct_step cr c) (map (rt_calc c) (ct_rates ct)) st).
+  { apply fold_ct_step_ext. eapply Forall_impl; [|exact F]. intros r Er st. apply (rt_recalc c r Er). }
+  rewrite E1, E2. split; [reflexivity|].
+  intros s. unfold sum_step. cbn [ct_amount ct_retained ct_surcharge]. reflexivity.
+Qed.
+
+Lemma fold_sum_step_ext cr (g h : cat_total -> cat_total) l :
+  Forall (fun x => forall s, sum_step cr s (g x) = sum_step cr s (h x)) l ->
+  forall s, fold_left (sum_step cr) (map g l) s = fold_left (sum_step cr) (map h l) s.
+Proof.
+  intros F. induction F as [|x l Hx F IH]; intros s; cbn [map fold_left]; [reflexivity|].
+  rewrite Hx. apply IH.
+Qed.
+
+Lemma tt_calculate_idempotent_partial cr c t : bases_at c t ->
+  tt_calculate cr c (tt_calculate cr c t) = tt_calculate cr c t.
+Proof.
+  intros B. rewrite (tt_calculate_unfold cr c (tt_calculate cr c t)).
+  rewrite (tt_calculate_unfold cr c t). cbv zeta. cbn [tt_cats].
+  rewrite !map_map.
+  assert (E1 : map (fun x => ct_round c (ct_calc cr c (ct_round c (ct_calc cr c x)))) (tt_cats t) =
+               map (fun x => ct_round c (ct_calc cr c x)) (tt_cats t)).
+  { apply map_ext_Forall'. eapply Forall_impl; [|exact B]. intros ct Fc. apply (ct_recalc cr c ct Fc). }
+  assert (E2 : forall s,
+             fold_left (sum_step cr) (map (fun x => ct_calc cr c (ct_round c (ct_calc cr c x))) (tt_cats t)) s =
+             fold_left (sum_step cr) (map (ct_calc cr c) (tt_cats t)) s).
+  { apply fold_sum_step_ext. eapply Forall_impl; [|exact B]. intros ct Fc s. apply (ct_recalc cr c ct Fc). }
+  rewrite E1, E2. reflexivity.
+Qed.
+
+(* a recalculated summary has bases with c decimals, so Calculate is idempotent from its second
+   application on, whatever the input *)
+Lemma tt_calculate_bases cr c t : bases_at c (tt_calculate cr c t).
+Proof.
+  rewrite tt_calculate_unfold. cbv zeta. unfold bases_at. cbn [tt_cats].
+  apply Forall_map, Forall_map. apply Forall_forall. intros ct _.
+  unfold ct_round, ct_calc. cbn [ct_rates]. apply Forall_map, Forall_map. apply Forall_forall.
+  intros r _. unfold rt_round. cbn [rt_base]. apply rescale_exp.
+Qed.
+
+Lemma tt_calculate_idempotent_after_first cr c t :
+  let t1 := tt_calculate cr c t in
+  tt_calculate cr c (tt_calculate cr c t1) = tt_calculate cr c t1.
+Proof. intros t1. apply tt_calculate_idempotent_partial, tt_calculate_bases. Qed.
